@@ -40,6 +40,15 @@ def parse (s : String) : Option Sexp :=
   let cs := s.toList
   parseAux (cs.length + 2) cs [] []
 
+/-- Parse a whitespace-separated sequence of S-expressions (the arguments of one request). -/
+def parseMany (s : String) : Option (List Sexp) :=
+  match parse ("(" ++ s ++ ")") with
+  | some (.list xs) => some xs
+  | _ => none
+
+/-- The arguments of a request line, re-joined and parsed as S-expressions. -/
+def parseArgs (args : List String) : Option (List Sexp) := parseMany (" ".intercalate args)
+
 partial def toString : Sexp → String
   | atom s => s
   | list xs => "(" ++ " ".intercalate (xs.map toString) ++ ")"
